@@ -979,6 +979,14 @@ impl KyroDBServiceImpl {
             self.state.metrics.record_error(ErrorCategory::Validation);
             Status::invalid_argument(message)
         })?;
+        if let Some(filter) = &req.filter {
+            if Self::filter_references_reserved_key(filter) {
+                self.state.metrics.record_error(ErrorCategory::Validation);
+                return Err(Status::invalid_argument(
+                    "filter must not reference reserved metadata keys",
+                ));
+            }
+        }
         Ok(plan)
     }
 
@@ -1005,6 +1013,33 @@ impl KyroDBServiceImpl {
         }
 
         hasher.finish()
+    }
+
+    /// Client filters must not name server-owned metadata keys: evaluating them against the stored
+    /// values would let a caller probe what it can never read back (tenant index, tenant id, the
+    /// stored namespace). Scoping goes through the authenticated tenant and the `namespace` field.
+    fn filter_references_reserved_key(filter: &kyrodb::MetadataFilter) -> bool {
+        use kyrodb::metadata_filter::FilterType;
+        fn reserved(key: &str) -> bool {
+            matches!(key, "__tenant_id__" | "__tenant_idx__" | "__namespace__")
+        }
+        match &filter.filter_type {
+            None => false,
+            Some(FilterType::Exact(m)) => reserved(&m.key),
+            Some(FilterType::Range(m)) => reserved(&m.key),
+            Some(FilterType::InMatch(m)) => reserved(&m.key),
+            Some(FilterType::AndFilter(f)) => {
+                f.filters.iter().any(Self::filter_references_reserved_key)
+            }
+            Some(FilterType::OrFilter(f)) => {
+                f.filters.iter().any(Self::filter_references_reserved_key)
+            }
+            Some(FilterType::NotFilter(f)) => f
+                .filter
+                .as_deref()
+                .map(Self::filter_references_reserved_key)
+                .unwrap_or(false),
+        }
     }
 
     fn sanitize_public_metadata(mut metadata: HashMap<String, String>) -> HashMap<String, String> {
@@ -2532,6 +2567,11 @@ impl KyroDbService for KyroDBServiceImpl {
                 }
             }
             Some(batch_delete_request::DeleteCriteria::Filter(filter)) => {
+                if Self::filter_references_reserved_key(&filter) {
+                    return Err(Status::invalid_argument(
+                        "filter must not reference reserved metadata keys",
+                    ));
+                }
                 // Combine tenant/namespace constraints into a structured AND filter so the
                 // cold-tier inverted index can accelerate common cases.
                 use kyrodb_engine::proto::metadata_filter::FilterType;
